@@ -14,6 +14,12 @@ claimed = {
          ENGINE_NOTE + "; repliers outside Lock/UnLock (doTimeOut, doExpried, wakeUpWaitLock, cancelWaitLock, DoAckLock) and routing by proxy not yet under contract", "4/C03"),
  "C04": ("proof", "UnLock: every path on which capacity was released runs the wake pass before returning; GetWaitLock returns only live waiters",
          ENGINE_NOTE + "; wake loop, expiry/timeout/rollback callers, queue order and priority not yet under contract", "4/C04"),
+ "C05": ("proof", "timeoutTime == now + T(unit) + 1 at queueing (GetOrNewLock, UpdateLockedLock); AddTimeOut picks a wheel slot within the next 8 seconds and never after the deadline, or the long table keyed by the deadline; the sweeper dispatches every second in [last, now] once and hands a request to doTimeOut only when its deadline has passed; doTimeOut answers TIMEOUT once, never after the tombstone, and re-arms only for a live keep-alive stream; GetWaitLock never returns a timed-out request",
+         ENGINE_NOTE + "; wheel/table membership of popped entries assumed; millisecond wheel and the long-table drain loop not under contract; wall clock vs server clock and goroutine start-up outside", "4/C05"),
+ "C06": ("proof", "expriedTime == grant time + E(unit) + 1 (AddLock), restarted by UpdateLockedLock, 'may be ignored' bound of CheckLockedEqual, AddExpried slot/long-table rule, sweeper never-early obligations, a long-table entry is moved with its old key when an update changes the deadline; doExpried removes exactly the hold's depth from the key's total, answers EXPRIED once and runs the wake pass",
+         ENGINE_NOTE + "; millisecond wheel not under contract; liveness of the sweeper outside", "4/C06"),
+ "C11": ("proof", "kernel only: AddLock marks require-ack holds pending; DoAckLock replies exactly once per pending hold with the code the outcome demands, a failed ack removes exactly the hold's depth, restores the value (ProcessRecoverLockData) and runs the wake pass; grants from the wait queue save undo data exactly on the ack branch; doTimeOut rolls a pending hold back",
+         ENGINE_NOTE + "; replication-side counting of acknowledgements (ProcessLeaderAofed/Acked, UpdateDBAckCount) and the aof flush order not yet under contract", "4/C11"),
  "C10": ("proof", "kernel only: LockDB.Lock and LockDB.UnLock answer STATE_ERROR and leave the engine state untouched whenever the node is not leader and the request is not from the log; PushLockAof/PushUnLockAof/PushExecutorLockCommand are no-ops on a non-leader",
          ENGINE_NOTE + "; dispatch in the protocol handlers, forwarding by the transparency layer and the follower expiry re-arm not yet under contract; two-process behaviour is outside", "4/C10"),
  "C17": ("proof", "LCount/LRCount arguments at every reply site of Lock/UnLock equal the counters read under the mutex; LockedCount and WaitCount change exactly with the manager's hold total and queue additions along every path of Lock/UnLock; RemoveLockManager drops the key's value whenever it releases the key",
